@@ -18,6 +18,7 @@ import tempfile
 from vlib.core import run_cmd, VERIF
 from vlib.build import BuildError
 from harness.C01 import gen as pgen
+from harness.C01 import rootsgen
 from tools.gen.csrc import ExtractError
 
 THEOREMS = [
@@ -34,9 +35,25 @@ THEOREMS = [
     "JanetModel.Props.C01.mark_typed_calls_acyclic",
     "JanetModel.Props.C01.collect_preserves_env_mode",
     "JanetModel.Props.C01.detach_iff_finished",
+    # session 3: root-set protocol, suspension, transparency with C locals under janet_gclock
+    "JanetModel.Props.C01.roots_refine_multiset",
+    "JanetModel.Props.C01.gcunroot_removes_exactly_one",
+    "JanetModel.Props.C01.gcunrootall_removes_all",
+    "JanetModel.Props.C01.gcunrootall_partial",
+    "JanetModel.Props.C01.gcunrootall_pinned_leaves_occurrence",
+    "JanetModel.Props.C01.root_capacity_invariant",
+    "JanetModel.Props.C01.reachable_roots_perm",
+    "JanetModel.Props.C01.marked_roots_perm",
+    "JanetModel.Props.C01.collect_suspended_noop",
+    "JanetModel.Props.C01.collect_epilogue",
+    "JanetModel.Props.C01.lock_unlock_restores",
+    "JanetModel.Props.C01.suspended_region_keeps_heap",
+    "JanetModel.Props.C01.gc_transparent_locked",
 ]
 H = os.path.join(VERIF, "harness/C01")
 SOURCES = [os.path.join(H, x) for x in ("gch.c", "w_ev.c", "w_net.c", "w_os.c", "w_filewatch.c")]
+ROOT_SOURCES = [os.path.join(H, x) for x in ("roots.c", "w_vm.c")]
+ROOT_OPS = os.path.join(VERIF, "corpus/C01/roots")
 EDGES = os.path.join(VERIF, "corpus/C01/edges")
 BASE_ENV = dict(os.environ, ASAN_OPTIONS="detect_leaks=0:abort_on_error=0:allocator_may_return_null=1", UBSAN_OPTIONS="print_stacktrace=1",
                 JANET_PATH="/nonexistent")
@@ -129,6 +146,114 @@ def scenario_meta(path):
     return need, opt, scheds, observes, stack
 
 
+
+def roots_stage(ctx, quick, driver, gen_info, broken, only=None):
+    """(D) op-history correspondence of the root-set protocol / suspension / collection decision against the real
+    functions, and (E) the plain-Python reference of the protocol on the implementation alone."""
+    exes = {}
+    for v in ("plain", "asan"):
+        exes[v] = ctx.build.harness(v, "c01roots", ROOT_SOURCES)
+    rng = ctx.rng.fork("roots")
+    hist = []
+    for p in sorted(glob.glob(os.path.join(ROOT_OPS, "*.ops"))):
+        with open(p) as f:
+            hist.append((os.path.basename(p), [l.strip() for l in f if l.strip() and not l.startswith("#")]))
+    n_gen = 0 if only else (160 if quick else 3000)
+    if os.environ.get("C01_LIGHT"):
+        n_gen = 60
+    if broken:
+        n_gen *= 4          # something in A-C no longer checks: search harder for a failing history
+    for i in range(n_gen):
+        r = rng.fork("h%d" % i)
+        hist.append(("gen%04d" % i, rootsgen.generate(r, r.range(30, 260))))
+    if only:
+        hist = [only]
+
+    def one(job):
+        idx, (name, ops) = job
+        variant = "asan" if idx % 2 else "plain"
+        rc, out, err = run_cmd([exes[variant]], input=("\n".join(ops) + "\n").encode(), timeout=300, env=BASE_ENV)
+        return name, ops, variant, rc, out.decode(errors="replace"), err
+    with cf.ThreadPoolExecutor(int(os.environ.get("VERIF_JOBS", "16"))) as ex:
+        impl = list(ex.map(one, enumerate(hist)))
+    tot = dict(histories=len(hist), ops=0, states=0, state_diffs=0, contract_findings=0)
+    agg = {}
+    model_in, spans = [], []
+    parsed = []
+    for name, ops, variant, rc, out, err in impl:
+        replay = dict(kind="root-ops", name=name, ops=ops, variant=variant)
+        if rc is None or rc != 0 or sanitizer_report(err):
+            ctx.violation("memory:root-ops", dict(replay, rc=rc, stderr=err.decode(errors="replace")[-4000:]),
+                          what="crash / sanitizer report / hang replaying a root-protocol op history (%s, %s): %s" % (name, variant, err.decode(errors="replace")[:300].replace("\n", " | ")))
+            parsed.append(None)
+            continue
+        m, st = [], []
+        for l in out.splitlines():
+            if l.startswith("m "):
+                m.append(l)
+            elif l.startswith("st "):
+                m.append("show")
+                st.append(l)
+        parsed.append((m, st))
+        spans.append((len(model_in), len(m), len(parsed) - 1))
+        model_in += m
+    model_out = []
+    if driver and model_in:
+        rc, out, err = run_cmd([driver], input=("\n".join(model_in) + "\n").encode(), timeout=1800)
+        model_out = [l for l in out.decode(errors="replace").splitlines() if l.startswith("st ")]
+        if rc != 0:
+            broken.append("model driver failed on root-protocol histories: %s" % err[-200:])
+            ctx.broken.append(broken[-1])
+    mi = 0
+    samples = []
+    for (name, ops, variant, rc, out, err), ps in zip(impl, parsed):
+        if ps is None:
+            continue
+        m, st = ps
+        replay = dict(kind="root-ops", name=name, ops=ops, variant=variant)
+        mo = model_out[mi:mi + len(st)]
+        mi += len(st)
+        tot["ops"] += len(ops)
+        tot["states"] += len(st)
+        # (E) reference on the implementation alone
+        viol, contract, stats = rootsgen.reference(m, st, gen_info.get("unrootallRescans"))
+        for k, v in stats.items():
+            agg[k] = max(agg.get(k, 0), v) if k.startswith("max_") else agg.get(k, 0) + v
+        if viol:
+            ctx.violation("roots:" + viol[0].split(":", 1)[1].strip()[:40], dict(replay, findings=viol[:10], states=st[:400]),
+                          what="root-set protocol oracle (%s, %s): %s" % (name, variant, viol[0][:300]))
+        if contract:
+            tot["contract_findings"] += len(contract)
+            if gen_info.get("unrootallRescans"):
+                # the loop re-examines the refilled slot according to the translator, yet an occurrence was left
+                ctx.violation("roots:gcunrootall-leaves-occurrence", dict(replay, findings=contract[:10], states=st[:400]),
+                              what="janet_gcunrootall left an id-equal root although its loop shape is the re-examining one (%s): %s" % (name, contract[0]))
+            elif len(samples) < 3:
+                samples.append("%s: %s" % (name, contract[0]))
+        # (D) model vs implementation, state by state (whole roots array, counters, liveness of every created block)
+        if driver:
+            d = [(i, a, b) for i, (a, b) in enumerate(zip(st, mo)) if a != b]
+            if len(mo) != len(st) or d:
+                tot["state_diffs"] += max(len(d), 1)
+                i, a, b = d[0] if d else (len(mo), "", "(model output short)")
+                broken.append("correspondence model/impl on root-protocol history %s at state %d: impl `%s` model `%s`" % (name, i, a[:200], b[:200]))
+                ctx.broken.append(broken[-1])
+                if not viol:
+                    keep = os.path.join(ctx.replay_dir, "rootops-%s.txt" % re.sub(r"\W", "_", name))
+                    os.makedirs(ctx.replay_dir, exist_ok=True)
+                    with open(keep, "w") as f:
+                        f.write("\n".join(ops) + "\n")
+    if samples:
+        # janet_gcunrootall's pinned loop skips the slot it has just refilled (proved: gcunrootall_pinned_leaves_occurrence;
+        # full contract only under Gen.GC.unrootallRescans = true).  An over-retained root keeps a block alive; it neither
+        # frees a reachable block nor changes observable behaviour, so it is reported as a finding next to C01, not as a
+        # violation of C01.  Proposed fix: patches/fix-C01-gcunrootall-skips-swapped-slot.diff
+        ctx.say("FINDING (outside the statement of C01, %d occurrence(s)): janet_gcunrootall leaves id-equal roots behind - %s" % (tot["contract_findings"], samples[0]))
+    tot["reference"] = agg
+    tot["unrootall_contract_samples"] = samples
+    return tot
+
+
 def run(ctx, only_replay=None):
     quick = ctx.tier == "quick"
     broken = []
@@ -176,6 +301,14 @@ def run(ctx, only_replay=None):
 
 def _run(ctx, quick, broken, exes, driver, tmp, gen_info, only_replay):
     rng = ctx.rng
+    roots_tot = {}
+    if not only_replay:
+        try:
+            roots_tot = roots_stage(ctx, quick, driver, gen_info, broken)
+            ctx.say("root-protocol histories: %s" % {k: v for k, v in roots_tot.items() if k not in ("reference", "unrootall_contract_samples")})
+        except BuildError as e:
+            broken.append("root-protocol harness does not build: %s" % str(e)[-400:])
+            ctx.broken.append(broken[-1])
     jobs = []          # (group, Job)
     groups = {}        # group name -> dict(prog, kind, meta)
     # ---- catalogue + minimised past failures
@@ -281,6 +414,14 @@ def _run(ctx, quick, broken, exes, driver, tmp, gen_info, only_replay):
                 dumps.append((g, job, r["dump"]))
             replay = dict(kind="gc-run", program=os.path.basename(info["prog"]), source=open(info["prog"]).read() if info["kind"] != "suite" else None,
                           path=info["prog"] if info["kind"] != "gen" else None, variant=job.variant, schedule=job.sched, schedule_seed=job.seed)
+            if r["rc"] is None:
+                # not a wall-clock assertion: a run that hits the timeout while the machine is overloaded is repeated once,
+                # alone, with three times the budget; only a second timeout is reported
+                again = run_job(exes, Job(job.prog, job.variant, job.sched, seed=job.seed, graph=job.graph, crit=job.crit, cwd=job.cwd,
+                                          timeout=job.timeout * 3, args=job.args, stack_kb=job.stack_kb), tmp)
+                if again["rc"] is not None:
+                    r = again
+                    findings, summary, labels, crit = parse_report(r["rep"])
             if findings:
                 sig = "graph:" + findings[0].split()[1] + ":" + os.path.basename(info["prog"]) if info["kind"] != "gen" else "graph:" + findings[0].split()[1]
                 ctx.violation(sig, dict(replay, findings=findings[:20]),
@@ -363,6 +504,7 @@ def _run(ctx, quick, broken, exes, driver, tmp, gen_info, only_replay):
         "schedule_variant_histogram": sched_hist, "generated_statement_kinds": dict(sorted(kinds.items())),
         "differences_not_reproduced_on_rerun": flaky,
         "model_dumps_checked": model_checked, "model_dump_diffs": model_diffs, "model_stats": model_stats,
+        "root_protocol_histories": roots_tot,
         "scenarios": len(scen), "generated_programs": n_small + n_large, "suites": len(suites), "translator": gen_info,
     }
     return ctx.finish("proof", cov, assumptions=[
@@ -376,6 +518,20 @@ def _run(ctx, quick, broken, exes, driver, tmp, gen_info, only_replay):
 def replay(ctx, path):
     r = json.load(open(path))
     print(json.dumps({k: v for k, v in r.items() if k not in ("source",)}, indent=1)[:3000])
+    if r.get("kind") == "root-ops" and r.get("ops"):
+        from tools.gen import gc as gen_gc
+        _, gen_info = gen_gc.render(ctx.build.tree)
+        before = ctx.nviol
+        broken = []
+        tot = roots_stage(ctx, True, ctx.driver(), gen_info, broken, only=(r.get("name", "replay"), r["ops"]))
+        print(json.dumps({k: v for k, v in tot.items()}, indent=1)[:2000])
+        for b in broken:
+            print("BROKEN", b)
+        if ctx.nviol > before or broken:
+            print("VIOLATION property=C01 replay=%s" % path)
+            return 1
+        print("replay: root-protocol history agrees with the reference and the model")
+        return 0
     if r.get("kind") != "gc-run" or not (r.get("source") or r.get("path")):
         return run(ctx)
     exes = {}
